@@ -28,6 +28,10 @@ CHECKS = {
    text='Coq [B] theorems by complete enumeration: for every n_qubits <= 7 the modelled bravyi_kitaev and bravyi_kitaev_tree ladder images are the Fock ladder operators transported by a signed permutation W of the occupation basis (W|0>=|0>, number operators diagonal), hence CAR and isospectrality with JW; for every n_qubits <= 128 and every mode the literal bit-trick index sets satisfy the Fenwick update/parity/occupation identities. Correspondence complete on n_qubits <= 48 (thorough 128) for the index sets of both transforms; ladder/Majorana images and operators against the model on non-powers of two and n_qubits beyond the mode count; the property itself (encoding_check with W reconstructed from the implementation images) on implementation outputs for n <= 5(6) qubits, both transforms, operators and MajoranaOperators; InteractionOperator path and _seeley_richard_love (all (i,j), n <= 9/16) against the FermionOperator path by the verified Pauli equivalence checker.',
    note='Bounded theorems state their bounds; the abstract linear-encoding theorem that would lift the set identities (n <= 128) to the operator statement for all n is not formalised. Trusted: kernel+VM, harness serialisation.',
    tech='exhaustive vm_compute theorems in Coq + model correspondence + verified-checker validation of the encoding property'),
+ 'C18': dict(cat='translation_validation', design='3/C18',
+   text='Checkers written and proved sound in Coq (pair_within_ok, pair_between_ok, pws_ok, pws_sym_ok, partitions_ok, pauli_strings_ok, grouping_ok) decide, by vm_compute inside Coq, the property on the complete output of the implementation for every list length in the explored range: pair_within lengths 1..40 (thorough 96), pair_between all length pairs up to 9x9 (14x14), pair_within_simultaneously lengths 4..16 (32), the symmetric/binned variants for num_fermions <= 6 (10) and num_symmetries <= 3 with the xor-of-bins admissibility rule, partition_iterator n <= 12 (20), k <= 4, pauli_string_iterator n <= 6 (8), k <= 3, and group_into_tensor_product_basis_sets for random operators and several seeds (partition of the terms, each term contained in its key, keys name one Pauli per qubit).',
+   note='No unbounded theorem about the generators themselves: the guarantee is complete only on the enumerated lengths (the domain is one small integer, so the enumeration is exhaustive there). Trusted: kernel+VM, serialisation of the yielded tuples.',
+   tech='verified checkers in Coq evaluated on exhaustive bounded domains'),
 }
 def main():
     fixes = subprocess.run("git -C /repo log --format=%H --grep='^fix:'", shell=True, capture_output=True, text=True).stdout.split()
